@@ -76,10 +76,13 @@ pub struct Profile {
     /// clones) is dropped in random order relative to connection progress; ends with a tear-down phase that drops whatever is
     /// left while the connection stays alive (no extra PRNG draws for the other profiles)
     pub idle: bool,
+    /// C20: handle operations are executed from inside the transport's write / flush callback of a connection poll
+    /// (`conn_poll_inject`), preferably on the stream that owns the DATA frame in flight (no extra PRNG draws for the other profiles)
+    pub inject: bool,
 }
 
 pub fn profile(name: &str) -> Profile {
-    let base = Profile { name: "mixed", w_conn_poll: 30, w_peer: 30, w_app: 40, w_io: 3, w_chaos: 0, w_end: 1, max_data: 3000, tiny_windows: false, small_limits: false, recv_heavy: false, control: false, queue: false, backpressure: false, starve: false, fuzz: false, legal_peer: false, idle: false };
+    let base = Profile { name: "mixed", w_conn_poll: 30, w_peer: 30, w_app: 40, w_io: 3, w_chaos: 0, w_end: 1, max_data: 3000, tiny_windows: false, small_limits: false, recv_heavy: false, control: false, queue: false, backpressure: false, starve: false, fuzz: false, legal_peer: false, idle: false, inject: false };
     match name {
         "flow" => Profile { name: "flow", tiny_windows: true, max_data: 400, w_io: 6, ..base },
         "limits" => Profile { name: "limits", small_limits: true, max_data: 200, ..base },
@@ -93,6 +96,7 @@ pub fn profile(name: &str) -> Profile {
         "starve" => Profile { name: "starve", starve: true, max_data: 60, w_app: 55, w_peer: 20, w_conn_poll: 25, w_io: 1, w_end: 0, ..base },
         "fuzz" => Profile { name: "fuzz", fuzz: true, w_chaos: 22, w_io: 8, w_peer: 30, w_app: 25, w_conn_poll: 30, max_data: 600, ..base },
         "control" => Profile { name: "control", w_end: 2, w_io: 5, control: true, ..base },
+        "inject" => Profile { name: "inject", backpressure: true, inject: true, max_data: 3000, w_io: 14, w_peer: 30, w_app: 38, w_conn_poll: 18, w_end: 0, ..base },
         "idle" => Profile { name: "idle", idle: true, legal_peer: true, w_end: 0, max_data: 300, w_app: 50, ..base },
         _ => base,
     }
@@ -928,6 +932,39 @@ pub fn gen_io(rng: &mut Rng) -> Value {
     }
 }
 
+/// C20: a connection poll with 1..3 handle operations run from the transport callback.  Half of the time the first one hits
+/// the stream whose DATA frame is with the codec (reset it, drop every handle of it, or queue more data behind the tail).
+pub fn gen_inject(rng: &mut Rng, d: &Driver, p: &Profile) -> Value {
+    let mut ops: Vec<Value> = Vec::new();
+    let owner: Option<usize> = d.snapshot().and_then(|s| {
+        let sid = s.conn.iter().find(|(k, _)| *k == "in_flight_stream_id").map(|(_, v)| *v).unwrap_or(-1);
+        if sid < 0 { None } else { d.handles.iter().position(|h| h.sid as i64 == sid) }
+    });
+    if let Some(h) = owner {
+        if rng.chance(2, 3) {
+            match rng.below(6) {
+                0 | 1 => ops.push(json!({"op":"send_reset","h":h,"code":8})),
+                2 => {
+                    ops.push(json!({"op":"drop_send","h":h}));
+                    ops.push(json!({"op":"drop_response","h":h}));
+                    ops.push(json!({"op":"drop_recv","h":h}));
+                    ops.push(json!({"op":"drop_respond","h":h}));
+                }
+                3 => ops.push(json!({"op":"send_data","h":h,"len": rng.range(1, 5000),"eos": rng.chance(1, 3)})),
+                4 => ops.push(json!({"op":"reserve","h":h,"n": *rng.pick(&[0u64, 1, 5000, 100000])})),
+                _ => ops.push(json!({"op":"poll_capacity","h":h})),
+            }
+        }
+    }
+    let n = rng.range(1, 3);
+    for _ in 0..n {
+        if let Some(o) = gen_app(rng, d, p) {
+            ops.push(o);
+        }
+    }
+    json!({"op":"conn_poll_inject","at": if rng.chance(2, 3) {"write"} else {"flush"},"nth": rng.range(1, 3),"ops": ops})
+}
+
 /// Generate and run `steps` ops; returns nothing (the trace is in `d.trace`).
 pub fn run_random(d: &mut Driver, rng: &mut Rng, p: &Profile, steps: usize) {
     let mut pv = PeerView::new(&d.cfg);
@@ -937,6 +974,13 @@ pub fn run_random(d: &mut Driver, rng: &mut Rng, p: &Profile, steps: usize) {
     while done < steps && tries < steps * 20 {
         tries += 1;
         pv.observe(d);
+        if p.inject && rng.chance(1, 4) {
+            let op = gen_inject(rng, d, p);
+            log_op(&op);
+            d.exec(&op);
+            done += 1;
+            continue;
+        }
         if p.control {
             if let Some(op) = pv.queue.pop_front() {
                 log_op(&op);
